@@ -228,6 +228,14 @@ func classifyIndex(w *World, fn *ssa.Function, in ssa.Instruction, coll, idx ssa
 			if c, ok := lenOf(f.Y); ok && sameColl(c, coll) && nonNegative(idx) {
 				return kind, "G1", "index below len of the same collection (range loop / explicit guard)"
 			}
+			// the indexed slice was made with the length of the collection the index ranges over: make([]T, len(c))
+			if c, ok := lenOf(f.Y); ok && nonNegative(idx) {
+				if mk, ok := coll.(*ssa.MakeSlice); ok {
+					if c2, ok := lenOf(mk.Len); ok && sameColl(c2, c) {
+						return kind, "G1", "index below len(c) into a slice made with make([]T, len(c))"
+					}
+				}
+			}
 			// hoisted length: t = len(coll) computed before the loop
 			if ln, ok := f.Y.(*ssa.Call); ok && calleeName(ln) == "builtin:len" && sameColl(ln.Call.Args[0], coll) && nonNegative(idx) {
 				return kind, "G1", "index below len of the same collection"
